@@ -144,7 +144,11 @@ func blockStmt(p *parser) {
 
 	var blockName string
 	if p.match(tSTR) {
-		blockName, _ = strconv.Unquote(p.prev.val)
+		var err error
+		blockName, err = strconv.Unquote(p.prev.val)
+		if err != nil {
+			p.error("invalid string literal: " + litErr(err))
+		}
 	}
 
 	p.consume(tLCURLY, "expected '{'")
@@ -420,7 +424,8 @@ func unary(p *parser, _ bool) {
 func intLit(p *parser, _ bool) {
 	v, err := strconv.ParseInt(p.prev.val, 0, 0)
 	if err != nil {
-		panic(err)
+		p.error("invalid int literal: " + litErr(err))
+		return
 	}
 	switch v {
 	case 0:
@@ -435,7 +440,8 @@ func intLit(p *parser, _ bool) {
 func floatLit(p *parser, _ bool) {
 	v, err := strconv.ParseFloat(p.prev.val, 64)
 	if err != nil {
-		panic(err)
+		p.error("invalid float literal: " + litErr(err))
+		return
 	}
 	p.emitConst(v)
 }
@@ -443,9 +449,17 @@ func floatLit(p *parser, _ bool) {
 func stringLit(p *parser, _ bool) {
 	s, err := strconv.Unquote(p.prev.val)
 	if err != nil {
-		panic(err)
+		p.error("invalid string literal: " + litErr(err))
+		return
 	}
 	p.emitConst(s)
+}
+
+func litErr(err error) string {
+	if e, ok := err.(*strconv.NumError); ok {
+		return e.Err.Error()
+	}
+	return err.Error()
 }
 
 func boolLit(p *parser, _ bool) {
